@@ -394,7 +394,7 @@ def _bounded(shard, nshards):
     return run
 
 
-CONTRACTS = [Contract("wntr.network.model:WaterNetworkModel.reset_initial_values", P + ["C10"], [_reset_case(k) for k in ("junction", "tank", "reservoir", "pipe", "head_pump", "power_pump", "valve")],
+CONTRACTS = [Contract("wntr.network.model:WaterNetworkModel.reset_initial_values", P + ["C10", "C08", "C06"], [_reset_case(k) for k in ("junction", "tank", "reservoir", "pipe", "head_pump", "power_pump", "valve")],
                       trusted=["RegInv (C14): nodes(Type) / links(Type) / controls() enumerate the registered elements"])]
 LEMMAS = [Lemma("C11.simulation_frame", P, _frame_lemma,
                 uses=["wntr.network.controls:ControlAction.__init__#init:*#writes_the_simulation_side_attribute_not_the_definition"],
